@@ -28,6 +28,7 @@ func init() {
 			{ID: "C07.6", Desc: "one key function", Run: func(c *Ctx) { ruleOneKeyer(c, "C07.6") }, MinSites: 2},
 			{ID: "C07.8", Desc: "the set of keys already deleted is local to one invalidation", Run: ruleC07_8, MinSites: 1},
 			{ID: "C07.7", Desc: "the location loop has no early exit", Run: func(c *Ctx) { ruleLocationLoopComplete(c, "C07.7") }, MinSites: 1},
+			{ID: "C07.9", Desc: "an unsafe request whose target has percent-encoded dot segments invalidates the entry of the plain spelling (decode before dot-segment removal)", Run: func(c *Ctx) { ruleDotAfterDecode(c, "C07.9") }, MinSites: 1},
 		},
 	})
 }
